@@ -62,6 +62,26 @@ def run_case(run, drv, case):
                 run.fail("impl-vs-spec", dict(case, content=label),
                          {"result": result, "pieces": [(bool(o), s) for o, s in stream][:12]})
         rc_model(drv, case, raw, files, state)
+        # the content path spelled relatively from inside the payload or its parent
+        old_cwd = os.getcwd()
+        spellings = [(parent, ".", "parent as '.'"), (parent, "./" + name, "root as './name'")]
+        if not case["single"]:
+            spellings += [(root, ".", "root as '.'"), (root, "..", "parent as '..'"),
+                          (root, "../" + name + "/.", "root as '../name/.'")]
+            sub = next((rel.split("/")[0] for rel, _ in files if "/" in rel), None)
+            if sub:
+                spellings.append((root, sub + "/..", "root as 'sub/..'"))
+        for cwd, spelled, label in spellings:
+            try:
+                os.chdir(cwd)
+                result = impl.recheck_result(mpath, spelled)
+            except Exception as exc:
+                run.fail("impl-vs-spec", dict(case, content=label), {"raised": repr(exc)})
+                continue
+            finally:
+                os.chdir(old_cwd)
+            if result != 100:
+                run.fail("impl-vs-spec", dict(case, content=label), {"result": result})
         # the command line, and a payload that is a symbolic link named like the torrent
         store = os.path.join(box, "store")
         os.makedirs(store)
